@@ -272,6 +272,26 @@ if stg:
         or bool(re.search(r"\.\s*is_new\b", snp) and re.search(r"\.\s*tuple_key\s*==", snp) and re.search(r"Element\s*::\s*Proposition", snp))
     ensure_consults_staged = bool(re.search(r"\breturn\s+Ok\s*\(\s*\(\s*\)\s*\)", between)) and not re.search(r"stage_new\s*\(", between) and rule
 
+# ENSURE works on the CANONICAL tuple: both endpoints go through `canonicalize` (merged_into chain) first, the
+# key is computed from the canonicalised endpoints, and that one key is what the store lookup, the look at
+# the rows staged for creation and the staged row itself use (data flow by identifier, whatever its name)
+canon = [(m.start(), m.group(1)) for m in re.finditer(r"let\s+(?:mut\s+)?(" + ID + r")\s*=\s*canonicalize\s*\(", en)]
+kcall = re.search(r"let\s+(?:mut\s+)?(" + ID + r")\s*=\s*tuple_key\s*\(", en)
+ensure_key_canonical = False
+if len(canon) >= 2 and kcall:
+    kname = kcall.group(1)
+    kargs = en[kcall.end():en.index(";", kcall.end())]
+    canon_names = [n for _, n in canon]
+    args_ok = all(re.search(r"(?<![\w.])" + re.escape(n) + r"(?![\w])", kargs) for n in set(canon_names))
+    order_ok = max(p0 for p0, _ in canon) < kcall.start() < p_find
+    def uses(call):
+        m2 = re.search(call + r"\s*\(\s*&?\s*(" + ID + r")", en)
+        return bool(m2) and m2.group(1) == kname
+    row_ok = bool(re.search(r"\btuple_key\s*:\s*" + re.escape(kname) + r"\b|\btuple_key\s*,", en)) if kname != "tuple_key" else bool(re.search(r"\btuple_key\s*[,:}]", en))
+    # no other key is computed in the function
+    one_key = len(re.findall(r"(?<![\w.])tuple_key\s*\(", en)) == 1
+    ensure_key_canonical = args_ok and order_ok and uses(r"\.\s*find_proposition") and (not stg or uses(r"\.\s*staged_new_proposition")) and row_ok and one_key
+
 # ---------------------------------------------------------------- nexus.rs
 nx = cut_tests(strip_rust_comments(read_source(repo, "rs/anda_cognitive_nexus/src/nexus.rs")))
 sx = inlined_body(nx, "execute")   # the first `fn execute`: `impl Executor for Session`
@@ -373,6 +393,9 @@ def checkFailureDiscardsShells : Bool := {b(check_failure_discards)}
 /-- `ensure_proposition`: store lookup, then the rows staged for creation (`is_new` Propositions with
 the same `tuple_key`: bind and return), then mint -/
 def ensureConsultsStaged : Bool := {b(ensure_consults_staged)}
+/-- `ensure_proposition`: both endpoints are canonicalised (`merged_into` chain) before the one tuple
+key is computed that the store lookup, the look at the staged rows and the staged row all use -/
+def ensureKeyIsCanonical : Bool := {b(ensure_key_canonical)}
 /-- `kml::plan`: every handle is declared before the first pass; a pass skips other passes' clauses -/
 def declareBeforeApply : Bool := {b(declare_first)}
 def passFilter : Bool := {b(pass_filter)}
@@ -429,6 +452,7 @@ theorem gen_write_loop :
 theorem gen_abort : (executeOrder && abortOnPlanError && abortDiscardsShells && shellIsPending) = true := by decide
 theorem gen_check_failure_discards : checkFailureDiscardsShells = true := by decide
 theorem gen_ensure_consults_staged : ensureConsultsStaged = true := by decide
+theorem gen_ensure_key_canonical : ensureKeyIsCanonical = true := by decide
 theorem gen_plan :
     (declareBeforeApply && passFilter) = true ∧ planPasses = 3 ∧ passCreateConcept = 0 ∧ passUpsertConcept = 1 ∧
     passEnsureProposition = 1 ∧ passOther = 2 ∧
